@@ -333,6 +333,11 @@ def run(ctx: core.Ctx) -> None:
     ctx.extra["random_tables"] = n_rand
     run_sweeps(ctx, tasks)
 
+    # per-call statement of the property under concurrent use (Reentrant.tla): the same calls from several threads at once
+    from ..drivers import threads  # noqa: PLC0415
+
+    threads.clause(ctx, ['gas_pseudopressure', 'tables'])
+
 
 def replay(ctx: core.Ctx, obj: dict) -> None:
     env.import_bluebonnet()
